@@ -57,7 +57,8 @@ def gen_case(ctx, i):
             prs.append({"pts": src["pts"] + r.normal(0, float(r.choice([0.5, 5, 15])), (n_nodes, 2)), "score": float(min(1.0, src["score"] + r.uniform(-0.3, 0.5))), "of": src["of"]})
         order = r.permutation(len(prs))
         frames.append({"gt": gts, "pr": [prs[j] for j in order]})
-    return {"i": i, "n_nodes": n_nodes, "noise": noise, "nan_class": nan_class, "manip": manip, "frames": frames, "seed": int(r.integers(0, 2 ** 31))}
+    return {"i": i, "n_nodes": n_nodes, "noise": noise, "nan_class": nan_class, "manip": manip, "frames": frames, "seed": int(r.integers(0, 2 ** 31)),
+            "two_videos": bool(r.random() < 0.3), "pred_in_gt": bool(r.random() < 0.25)}
 
 
 def directed(ctx):
@@ -97,16 +98,21 @@ def build_labels(case, pr_filter=None, perfect=False):
 
     if "v" not in _V:
         _V["v"] = synth.blank_video("C16", n_frames=8)
-    v = _V["v"]
+        _V["v2"] = synth.blank_video("C16", n_frames=8, name="blank2.h5")
     n = case["n_nodes"]
     sk = _V.setdefault(("sk", n), synth.skeleton(n))
     gt_lfs, pr_lfs = [], []
-    for f, fr in enumerate(case["frames"]):
+    two = bool(case.get("two_videos"))  # a project with two videos whose labelled frames share their frame indices
+    for f_pos, fr in enumerate(case["frames"]):
+        v, f = (_V["v2"], f_pos // 2) if (two and f_pos % 2) else (_V["v"], f_pos // 2 if two else f_pos)
         gts = [synth.user_instance(arr(g, n), sk) for g in fr["gt"]]
+        if case.get("pred_in_gt") and gts:  # the ground-truth project also holds earlier predictions next to the user labels (ignored: user_labels_only)
+            extra = synth.pred_instance(arr(fr["gt"][0], n) + 31.0, sk, score=0.5)
+            gts.insert((f_pos * 7 + len(gts)) % (len(gts) + 1), extra)
         if perfect:
-            prs = [synth.pred_instance(arr(g, n), sk, score=0.1 + 0.8 * ((f * 7 + a * 3) % 5) / 5) for a, g in enumerate(fr["gt"])]
+            prs = [synth.pred_instance(arr(g, n), sk, score=0.1 + 0.8 * ((f_pos * 7 + a * 3) % 5) / 5) for a, g in enumerate(fr["gt"])]
         else:
-            prs = [synth.pred_instance(arr(p["pts"], n), sk, score=p["score"]) for j, p in enumerate(fr["pr"]) if pr_filter is None or (f, j) not in pr_filter]
+            prs = [synth.pred_instance(arr(p["pts"], n), sk, score=p["score"]) for j, p in enumerate(fr["pr"]) if pr_filter is None or (f_pos, j) not in pr_filter]
         gt_lfs.append(sio.LabeledFrame(video=v, frame_idx=f, instances=gts))
         pr_lfs.append(sio.LabeledFrame(video=v, frame_idx=f, instances=prs))
     return sio.Labels(gt_lfs), sio.Labels(pr_lfs)
